@@ -450,7 +450,10 @@ func C01(tier string) int {
 		if hi > len(cases) {
 			hi = len(cases)
 		}
-		type viol struct{ key, what string; rep M }
+		type viol struct {
+			key, what string
+			rep       M
+		}
 		var vs []viol
 		classes := map[string]struct{}{}
 		outc := map[string]int{}
